@@ -9,10 +9,51 @@ import (
 	"verif/harness/go2coq"
 )
 
-// Group ProxySrc: the pure decision functions of goproxytest (allhex.go: allHex; pseudo.go:
-// isPseudoVersion) translated to Gallina by harness/go2coq, written to Gen/ProxySrc.v.
-// Proxy/SrcFacts.v proves the generated functions equal to the model's allhex / is_pseudo.
-// This file holds only the table; the denotations are Proxy/SrcLib.v.
+// Group ProxySrc: goproxytest translated to Gallina by harness/go2coq, written to Gen/ProxySrc.v.
+// allhex.go (allHex) and pseudo.go (isPseudoVersion) are translated whole.  proxy.go is a server:
+// it reads a directory, answers HTTP requests and keeps two par.Caches; what is translated are the
+// pure SEGMENTS between those effects (go2coq.Segment, segstate.go):
+//
+//	readModList   the body of the loop over the directory entries: from (name, isDir) and the
+//	              server (whose modList it appends to) to continue / return err / the new server
+//	handler       "route": everything from r.URL.Path to the call of readArchive -- prefix and
+//	              "/@v/" split, module.UnescapePath, the list endpoint (filter over modList,
+//	              module.Check, one line per version, 404 when none), the extension split,
+//	              module.UnescapeVersion, the commit-hash resolution loop (allHex, semver.Compare,
+//	              the pseudo-version suffix, findHash as an oracle carried by the server value, the
+//	              two HasPrefix tests and hash != ""); the http.ResponseWriter is state;
+//	              "serve": everything after the call of readArchive -- a == nil, the switch on the
+//	              extension, the .info/.mod selection over a.Files, the zip response from the value
+//	              of zipCache.Do (an oracle parameter), the final 404;
+//	              "zipskip" / "zipname": inside the function literal handed to zipCache.Do, the
+//	              member filter and the argument of z.Create
+//	readArchive   "names": the escape calls and the three candidate file names;
+//	              "arpath": the name computed in the WalkDir callback
+//	findHash      "info": from the archive to the data of its .info entry
+//
+// Proxy/SrcFacts.v and Proxy/SrcSegFacts.v prove the generated definitions equal to the model of
+// Proxy/Proxy.v; Proxy/SrcGlue.v is the hand-written glue between the segments.  This file holds
+// only the table; the denotations are Proxy/SrcLib.v (each DEFINED from a function the model
+// already uses for the same call).
+const proxyPkg = "github.com/rogpeppe/go-internal/goproxytest"
+
+var proxySrcStubs = map[string]string{
+	"io/fs":   "package fs\ntype DirEntry interface {\n\tName() string\n\tIsDir() bool\n}\ntype WalkDirFunc func(path string, d DirEntry, err error) error\n",
+	"os":      "package os\nimport \"io/fs\"\ntype DirEntry = fs.DirEntry\nconst PathSeparator = '/'\nfunc ReadDir(name string) ([]DirEntry, error)\nfunc ReadFile(name string) ([]byte, error)\nfunc IsNotExist(err error) bool\n",
+	"io":      "package io\ntype Writer interface {\n\tWrite(p []byte) (n int, err error)\n}\n",
+	"net/url": "package url\ntype URL struct {\n\tPath string\n}\n",
+	"net/http": "package http\nimport \"net/url\"\ntype ResponseWriter interface {\n\tWrite([]byte) (int, error)\n}\ntype Request struct {\n\tURL *url.URL\n}\n" +
+		"func NotFound(w ResponseWriter, r *Request)\nfunc Error(w ResponseWriter, error string, code int)\n",
+	"golang.org/x/tools/txtar":            "package txtar\ntype Archive struct {\n\tComment []byte\n\tFiles []File\n}\ntype File struct {\n\tName string\n\tData []byte\n}\nfunc ParseFile(file string) (*Archive, error)\n",
+	"github.com/rogpeppe/go-internal/par": "package par\ntype Cache struct{}\nfunc (c *Cache) Do(key any, f func() any) any\n",
+	"archive/zip":                         "package zip\nimport \"io\"\ntype Writer struct{}\nfunc NewWriter(w io.Writer) *Writer\nfunc (w *Writer) Create(name string) (io.Writer, error)\nfunc (w *Writer) Close() error\n",
+	"path/filepath":                       "package filepath\nimport \"io/fs\"\nfunc Join(elem ...string) string\nfunc ToSlash(path string) string\nfunc WalkDir(root string, fn fs.WalkDirFunc) error\n",
+	"encoding/json":                       "package json\nfunc Unmarshal(data []byte, v any) error\n",
+	"golang.org/x/mod/module": "package module\ntype Version struct {\n\tPath string\n\tVersion string\n}\n" +
+		"func UnescapePath(escaped string) (path string, err error)\nfunc UnescapeVersion(escaped string) (v string, err error)\n" +
+		"func EscapePath(path string) (escaped string, err error)\nfunc EscapeVersion(v string) (escaped string, err error)\nfunc Check(path, version string) error\n",
+}
+
 func init() {
 	outFile["ProxySrc"] = "ProxySrc.v"
 	stubOnFailure["ProxySrc"] = true
@@ -21,9 +62,13 @@ func init() {
 		for k, v := range goLibStubs {
 			stubs[k] = v
 		}
-		stubs["strings"] = goLibStubs["strings"] + "func Count(s, substr string) int\n"
+		stubs["strings"] = goLibStubs["strings"] + "func Count(s, substr string) int\nfunc TrimSuffix(s, suffix string) string\nfunc LastIndex(s, substr string) int\nfunc ReplaceAll(s, old, new string) string\n"
+		for k, v := range proxySrcStubs {
+			stubs[k] = v
+		}
+		stubs["fmt"] = "package fmt\nimport \"io\"\nfunc Errorf(format string, a ...any) error\nfunc Fprintf(w io.Writer, format string, a ...any) (n int, err error)\n"
 		stubs["regexp"] = "package regexp\ntype Regexp struct{}\nfunc MustCompile(str string) *Regexp\nfunc (re *Regexp) MatchString(s string) bool\n"
-		stubs["golang.org/x/mod/semver"] = "package semver\nfunc IsValid(v string) bool\n"
+		stubs["golang.org/x/mod/semver"] = "package semver\nfunc IsValid(v string) bool\nfunc Compare(v, w string) int\n"
 		lib := map[string]go2coq.LibFunc{}
 		for k, v := range goLib {
 			lib[k] = v
@@ -32,11 +77,70 @@ func init() {
 		lib["strings.Count"] = go2coq.LibFunc{Coq: "go_strings_Count", Monadic: true}
 		lib["golang.org/x/mod/semver.IsValid"] = go2coq.LibFunc{Coq: "go_semver_IsValid"}
 		lib["(*regexp.Regexp).MatchString"] = go2coq.LibFunc{Coq: "go_regexp_MatchString"}
+		// proxy.go: the group's own string functions (Proxy/Proxy.v) instead of Lib/GoSem.v's
+		lib["strings.HasPrefix"] = go2coq.LibFunc{Coq: "go_strings_HasPrefix"}
+		lib["strings.HasSuffix"] = go2coq.LibFunc{Coq: "go_strings_HasSuffix"}
+		lib["strings.TrimPrefix"] = go2coq.LibFunc{Coq: "go_strings_TrimPrefix"}
+		lib["strings.Index"] = go2coq.LibFunc{Coq: "go_strings_Index"}
+		lib["strings.TrimSuffix"] = go2coq.LibFunc{Coq: "go_strings_TrimSuffix"}
+		lib["strings.LastIndex"] = go2coq.LibFunc{Coq: "go_strings_LastIndex"}
+		lib["strings.ReplaceAll"] = go2coq.LibFunc{Coq: "go_strings_ReplaceAll", Monadic: true}
+		lib["golang.org/x/mod/module.UnescapePath"] = go2coq.LibFunc{Coq: "go_module_UnescapePath"}
+		lib["golang.org/x/mod/module.UnescapeVersion"] = go2coq.LibFunc{Coq: "go_module_UnescapeVersion"}
+		lib["golang.org/x/mod/module.EscapePath"] = go2coq.LibFunc{Coq: "go_module_EscapePath"}
+		lib["golang.org/x/mod/module.EscapeVersion"] = go2coq.LibFunc{Coq: "go_module_EscapeVersion"}
+		lib["golang.org/x/mod/module.Check"] = go2coq.LibFunc{Coq: "go_module_Check"}
+		lib["golang.org/x/mod/semver.Compare"] = go2coq.LibFunc{Coq: "go_semver_Compare"}
+		lib["(io/fs.DirEntry).Name"] = go2coq.LibFunc{Coq: "go_direntry_Name"}
+		lib["(io/fs.DirEntry).IsDir"] = go2coq.LibFunc{Coq: "go_direntry_IsDir"}
+		lib["net/http.NotFound"] = go2coq.LibFunc{Coq: "go_http_NotFound", Mutates: true}
+		lib["net/http.Error"] = go2coq.LibFunc{Coq: "go_http_Error", Mutates: true}
+		lib["(net/http.ResponseWriter).Write"] = go2coq.LibFunc{Coq: "go_http_Write", Mutates: true}
+		lib["fmt.Fprintf"] = go2coq.LibFunc{Coq: "go_fmt_Fprintf", Mutates: true, Monadic: true}
+		lib["error.Error"] = go2coq.LibFunc{Coq: "go_error_Error"}
+		lib[proxyPkg+".Server.logf"] = go2coq.LibFunc{Discard: true}
+		lib["(*"+proxyPkg+".Server).findHash"] = go2coq.LibFunc{Coq: "srv_findHash"}
+		lib["(*"+proxyPkg+".Server).readArchive"] = go2coq.LibFunc{Oracle: true}
+		lib["(*github.com/rogpeppe/go-internal/par.Cache).Do"] = go2coq.LibFunc{Oracle: true}
+		lib["path/filepath.Join"] = go2coq.LibFunc{Coq: "go_filepath_Join", Monadic: true}
+		lib["path/filepath.ToSlash"] = go2coq.LibFunc{Coq: "go_filepath_ToSlash"}
+		readArchive := "(*" + proxyPkg + ".Server).readArchive"
+		cacheDo := "(*github.com/rogpeppe/go-internal/par.Cache).Do"
+		zipCreate := "(*archive/zip.Writer).Create"
 		cfg := &go2coq.Config{
 			Prefix: "src_",
 			Funcs:  []string{"allHex", "isPseudoVersion"},
 			Stubs:  stubs,
 			Lib:    lib,
+			Structs: map[string]go2coq.Struct{
+				proxyPkg + ".Server": {CoqType: "go_server", Ctor: "mkServer", Partial: true, Owned: []string{"modList"},
+					Fields: []go2coq.Field{{Go: "dir", Getter: "srv_dir"}, {Go: "modList", Getter: "srv_modList"}, {Go: "archiveCache", Getter: "srv_archives"}}},
+				"net/http.Request": {CoqType: "go_request", Ctor: "mkRequest", Fields: []go2coq.Field{{Go: "URL", Getter: "req_URL"}}},
+				"net/url.URL":      {CoqType: "go_url", Ctor: "mkURL", Fields: []go2coq.Field{{Go: "Path", Getter: "url_Path"}}},
+				"golang.org/x/tools/txtar.Archive": {CoqType: "go_archive", Ctor: "mkArchive",
+					Fields: []go2coq.Field{{Go: "Comment", Getter: "ar_comment"}, {Go: "Files", Getter: "ar_files"}}},
+				"golang.org/x/tools/txtar.File": {CoqType: "(bytes * bytes)%type", Ctor: "pair",
+					Fields: []go2coq.Field{{Go: "Name", Getter: "fst"}, {Go: "Data", Getter: "snd"}}},
+				proxyPkg + ".cached": {CoqType: "(bytes * bool)%type", Ctor: "pair",
+					Fields: []go2coq.Field{{Go: "zip", Getter: "fst"}, {Go: "err", Getter: "snd"}}},
+				"golang.org/x/mod/module.Version": {CoqType: "(bytes * bytes)%type", Ctor: "pair",
+					Fields: []go2coq.Field{{Go: "Path", Getter: "fst"}, {Go: "Version", Getter: "snd"}}},
+			},
+			Types: map[string]go2coq.LibType{
+				"io/fs.DirEntry": {Coq: "go_direntry"},
+			},
+			Opaque:   map[string]go2coq.Opaque{"net/http.ResponseWriter": {CoqType: "go_response"}},
+			Nullable: []string{"*golang.org/x/tools/txtar.Archive"},
+			Segments: []go2coq.Segment{
+				{Func: "Server.readModList", Name: "entry", In: "(io/fs.DirEntry).Name", State: []string{"srv"}},
+				{Func: "Server.handler", Name: "route", Before: readArchive, State: []string{"w"}},
+				{Func: "Server.handler", Name: "serve", After: readArchive, State: []string{"w"}},
+				{Func: "Server.handler", Name: "zipskip", In: zipCreate, Before: zipCreate},
+				{Func: "Server.handler", Name: "zipname", Args: zipCreate},
+				{Func: "Server.readArchive", Name: "names", Before: cacheDo},
+				{Func: "Server.readArchive", Name: "arpath", From: "path/filepath.ToSlash", Through: "path/filepath.ToSlash"},
+				{Func: "Server.findHash", Name: "info", After: readArchive, Before: "var:info"},
+			},
 			// pseudoVersionRE = regexp.MustCompile(<literal>): the group Proxy translates the
 			// literal's regexp/syntax parse tree into the term pseudo_version_re of
 			// Gen/ProxyConsts.v on every run (and fails if the initialiser is anything else)
@@ -51,12 +155,12 @@ func init() {
 		}
 		res, err := go2coq.Translate(g.fset, files, "github.com/rogpeppe/go-internal/goproxytest", cfg)
 		if err != nil {
-			g.fail("%s: %v", filepath.Join("goproxytest", "allhex.go, pseudo.go"), err)
+			g.fail("%s: %v", filepath.Join("goproxytest", "allhex.go, pseudo.go, proxy.go"), err)
 			return
 		}
-		fmt.Fprintf(&g.buf, "(* goproxytest/allhex.go and pseudo.go translated by harness/go2coq (table: harness/cmd/genconsts/gen_proxy_src.go).\n")
-		fmt.Fprintf(&g.buf, "   Functions: %s.  Vocabulary: Lib/GoSem.v, Lib/GoSemExt.v, Proxy/SrcLib.v. *)\n", strings.Join(res.Funcs, ", "))
-		fmt.Fprintf(&g.buf, "From Coq Require Import Bool.\nFrom GI Require Import Lib.Bytes Lib.GoSem Lib.GoSemExt Gen.ProxyConsts Proxy.SrcLib.\nImport GoNotations.\nLocal Open Scope go_scope.\n\n")
+		fmt.Fprintf(&g.buf, "(* goproxytest/allhex.go and pseudo.go, and the pure segments of proxy.go (readModList, handler, readArchive,\n   findHash), translated by harness/go2coq (table: harness/cmd/genconsts/gen_proxy_src.go).\n")
+		fmt.Fprintf(&g.buf, "   Definitions: %s.\n   Vocabulary: Lib/GoSem.v, Lib/GoSemExt.v, Lib/GoSemData.v, Lib/GoSemHandler.v, Proxy/SrcLib.v. *)\n", strings.Join(res.Funcs, ", "))
+		fmt.Fprintf(&g.buf, "From Coq Require Import Bool.\nFrom GI Require Import Lib.Bytes Lib.GoSem Lib.GoSemExt Lib.GoSemData Lib.GoSemHandler Gen.ProxyConsts Proxy.SrcLib.\nImport GoNotations.\nLocal Open Scope go_scope.\n\n")
 		g.buf.WriteString(res.Text)
 	}
 }
